@@ -75,13 +75,14 @@ def compare(cases):
         hist["grown"] += 1 if g > 0 else 0
         hist["growth_steps"][min(g, 8)] = hist["growth_steps"].get(min(g, 8), 0) + 1
         hist["zero_length_atom"] += 1 if "::" in t["atoms"] else 0
+        acl = "%s atoms=%s act=%s acm=%s acp=%s buf=- cands=-" % (t["id"], atoms_arg(t["atoms"]), t["act"], t["acm"], t["acp"])
         if ml is None or len(ml.split()) < 4:
-            bad.append({"id": t["id"], "table": "none", "why": "model produced no tables: %r" % (ml or err[:200]), "driver_line": d})
+            bad.append({"id": t["id"], "table": "none", "why": "model produced no tables: %r" % (ml or err[:200]), "driver_line": d, "ac_line": acl})
             continue
         mt = {x.split("=", 1)[0]: x.split("=", 1)[1] for x in ml.split()[1:]}
         for k, name in (("act", "transition table"), ("acm", "match table"), ("acp", "match pool")):
             if mt.get(k) != t[k]:
-                bad.append({"id": t["id"], "table": name, "first_difference": first_diff(t[k], mt.get(k, "")), "driver_line": d})
+                bad.append({"id": t["id"], "table": name, "first_difference": first_diff(t[k], mt.get(k, "")), "driver_line": d, "ac_line": acl})
                 break
     compare.last = hist
     return bad
@@ -216,13 +217,23 @@ def rulesets(r, kind, tier):
 
 
 def report(chk, bad, lines_by_id, tag):
-    """file (at most 5) violations with a replay: the h_scan line of the rule set and the driver line"""
+    """file (at most 5) violations with a replay: the h_scan line of the rule set and the driver line.
+    For each mismatch the AC certificate (Thm/AcCert) is evaluated on the REAL tables: if it fails the rule set is a concrete
+    input on which the automaton is wrong; if it holds, the automaton of this rule set is still correct but is no longer the one
+    the proved model builds — the tie of Thm/AcBuild to the code is broken (reported as `no-failing-input-found`)."""
     for i, m in enumerate(bad[:5]):
+        cert = None
+        if m.get("ac_line"):
+            out, _, _ = core.run_lines([core.driver_path(), "ac"], [m["ac_line"]])
+            cert = bool(out) and "cert=1" in out[0]
         chk.violation("acbuild_%s_%d.json" % (tag, i), {
             "kind": "Aho-Corasick construction: the tables of the real automaton differ from the tables the Lean model of ahocorasick.c "
-                    "builds from the same atoms (%s)" % m["table"],
+                    "builds from the same atoms (%s); the certificate of Thm/AcCert on the real tables %s" %
+                    (m["table"], "still HOLDS (automaton correct for this rule set, but not the one covered by Thm/AcBuild: model/code tie broken)" if cert
+                     else "FAILS (the candidates are not the atom occurrences for some buffer)"),
             "acbuild": True, "harness": "h_scan", "engine": "acbuild", "harness_line": lines_by_id.get(m["id"]),
-            "driver_line": m["driver_line"], "mismatch": {k: v for k, v in m.items() if k != "driver_line"}})
+            "driver_line": m["driver_line"], "real_tables_certificate": cert,
+            "mismatch": {k: v for k, v in m.items() if k not in ("driver_line", "ac_line")}}, no_input=bool(cert))
     return bool(bad)
 
 
